@@ -1,7 +1,7 @@
 (* Instantiation of the chunk-independence theorem (TokIR/Chunk.v) on the REGENERATED tokenizer tables:
    every arm body of every state has one of the shapes the suspend/resume argument needs. *)
 From Coq Require Import List NArith Bool.
-From HV Require Import TokIR.IR TokIR.Interp TokIR.Checks TokIR.Chunk TokIR.ChunkInv Gen.GenHtmlTok Gen.GenXmlTok.
+From HV Require Import TokIR.IR TokIR.Interp TokIR.Checks TokIR.Chunk TokIR.ChunkInv TokIR.ChunkExec Gen.GenHtmlTok Gen.GenXmlTok.
 Import ListNotations.
 
 Lemma html_shape_all : forall s, shape html_flavour (html_step s) = true.
@@ -90,4 +90,60 @@ Theorem xml_feed_chunks_keeps_J :
 Proof.
   intros simd ent c1 sk inj cs m m'.
   exact (feed_chunks_J xml_flavour true xml_table simd ent c1 sk xml_rfirst_all xml_rt_ok_all inj cs m m').
+Qed.
+
+(* ---------------------------------------------------------------- the executable driver (TokIR/ChunkExec.v)
+   Two chunkings of one input, fed with the fuelled driver functions [feed_loop] / [drive] (= drive_flat) and ended
+   with end(), reach the same final machine and the same result of end(), provided every feed call of both runs ended
+   regularly (done, script pause or encoding indicator: no panic value, no fuel exhaustion) and the BOM flag is clear
+   (BOM handling looks at the first character of the stream only and is exercised by the check's oracles). *)
+Definition nobom_of {S} (m : mach S (list N)) : Prop := discard_bom (mc m) = false.
+
+Lemma html_Hrun simd ent c1 sk : forall fuel (m m' : mach hstate (list N)) r, True ->
+  run [] fq_next fq_peek (@app N) (fun q => q) fq_run1 html_flavour true html_table simd ent c1 sk false fuel m = (m', r) ->
+  (oruns html_flavour true html_table simd ent c1 sk m m' r /\ True) \/ r = SPanic 98.
+Proof. intros f m0 m' r _ H. destruct (html_run_is_relation simd ent c1 sk f m0 m' r H) as [A|A]; [left; auto|right; exact A]. Qed.
+Lemma run_nobom {S} (fl : flavour S) tb simd ent c1 sk : forall fuel (m : mach S (list N)),
+  nobom m -> nobom (fst (run [] fq_next fq_peek (@app N) (fun q => q) fq_run1 fl true tb simd ent c1 sk false fuel m)).
+Proof.
+  intros f m0 H0. unfold nobom in *.
+  pose proof (run_db fl true tb simd ent c1 sk f m0) as G. unfold dbom in G. rewrite G. exact H0.
+Qed.
+Lemma inj_nobom {S} : forall inj (m : mach S (list N)), nobom m -> nobom (RecordSet.set mq (app inj) m).
+Proof. intros i m0 H0. destruct m0; exact H0. Qed.
+
+Theorem html_drive_chunking_independent :
+  forall simd ent c1 sk fuel inj cs1 cs2 (m : mach hstate (list N)),
+  discard_bom (mc m) = false ->
+  all_nonempty cs1 -> all_nonempty cs2 -> cs1 <> [] -> cs2 <> [] -> concat cs1 = concat cs2 ->
+  all_done (tl (snd (drive_flat html_flavour true html_table simd ent c1 sk fuel inj cs1 m []))) ->
+  all_done (tl (snd (drive_flat html_flavour true html_table simd ent c1 sk fuel inj cs2 m []))) ->
+  fst (drive_flat html_flavour true html_table simd ent c1 sk fuel inj cs1 m []) =
+  fst (drive_flat html_flavour true html_table simd ent c1 sk fuel inj cs2 m []) /\
+  hd SSuspend (snd (drive_flat html_flavour true html_table simd ent c1 sk fuel inj cs1 m [])) =
+  hd SSuspend (snd (drive_flat html_flavour true html_table simd ent c1 sk fuel inj cs2 m [])).
+Proof.
+  intros simd ent c1 sk fuel inj cs1 cs2 m HB.
+  exact (drive_chunking_independent html_flavour html_table simd ent c1 sk (fun _ => True)
+           (html_Hrun simd ent c1 sk) (fun _ _ _ => I) (fun _ _ _ => I) html_shape_all html_no_eof_all
+           (run_nobom html_flavour html_table simd ent c1 sk) inj_nobom fuel inj cs1 cs2 m I HB).
+Qed.
+
+Theorem xml_drive_chunking_independent :
+  forall simd ent c1 sk fuel inj cs1 cs2 (m : mach xstate (list N)),
+  J xml_table m -> discard_bom (mc m) = false ->
+  all_nonempty cs1 -> all_nonempty cs2 -> cs1 <> [] -> cs2 <> [] -> concat cs1 = concat cs2 ->
+  all_done (tl (snd (drive_flat xml_flavour true xml_table simd ent c1 sk fuel inj cs1 m []))) ->
+  all_done (tl (snd (drive_flat xml_flavour true xml_table simd ent c1 sk fuel inj cs2 m []))) ->
+  fst (drive_flat xml_flavour true xml_table simd ent c1 sk fuel inj cs1 m []) =
+  fst (drive_flat xml_flavour true xml_table simd ent c1 sk fuel inj cs2 m []) /\
+  hd SSuspend (snd (drive_flat xml_flavour true xml_table simd ent c1 sk fuel inj cs1 m [])) =
+  hd SSuspend (snd (drive_flat xml_flavour true xml_table simd ent c1 sk fuel inj cs2 m [])).
+Proof.
+  intros simd ent c1 sk fuel inj cs1 cs2 m HJ HB.
+  exact (drive_chunking_independent xml_flavour xml_table simd ent c1 sk (J xml_table)
+           (xml_run_is_relation simd ent c1 sk)
+           (fun x m0 H0 => proj1 (J_ext xml_table simd ent x m0) H0) (fun i m0 H0 => J_inj xml_table i m0 H0)
+           xml_shape_all xml_no_eof_all
+           (run_nobom xml_flavour xml_table simd ent c1 sk) inj_nobom fuel inj cs1 cs2 m HJ HB).
 Qed.
